@@ -23,21 +23,26 @@ using namespace foonathan::memory;
 using namespace foonathan::memory::detail;
 typedef unsigned long long u64;
 
+// mode 0: the array as constructed; 1: after move construction; 2: after move assignment onto another array
 template <class FL, class AP>
-static u64 bucket(u64 max_node, u64 s)
+static u64 bucket(u64 max_node, u64 s, int mode = 0)
 {
-    static std::vector<char>* buf = nullptr;
+    using arr_t = free_list_array<FL, AP>;
     static u64 cur_max = 0;
-    static free_list_array<FL, AP>* arr = nullptr;
-    if (!arr || cur_max != max_node)
-    {
-        delete buf;
-        buf = new std::vector<char>(sizeof(FL) * (max_node + 70) + 64);
+    static arr_t* arr[3] = {nullptr, nullptr, nullptr};
+    auto fresh = [&](u64 mx) {
+        auto* buf = new std::vector<char>(sizeof(FL) * (mx + 70) + 64);      // kept alive: the lists live in it
         auto* st = new fixed_memory_stack(buf->data());
-        arr = new free_list_array<FL, AP>(*st, buf->data() + buf->size(), max_node);
+        return new arr_t(*st, buf->data() + buf->size(), mx);
+    };
+    if (!arr[0] || cur_max != max_node)
+    {
+        arr[0] = fresh(max_node);
+        arr[1] = new arr_t(std::move(*fresh(max_node)));
+        arr[2] = fresh(8); *arr[2] = std::move(*fresh(max_node));
         cur_max = max_node;
     }
-    return arr->get(s).node_size();
+    return arr[mode]->get(s).node_size();
 }
 
 int main(int argc, char** argv)
@@ -91,14 +96,15 @@ int main(int argc, char** argv)
             default: continue;
             }
         }
-        else if (fn == "bucket") {
+        else if (fn == "bucket" || fn == "bucket_moved" || fn == "bucket_assigned") {
+            int mode = fn == "bucket" ? 0 : fn == "bucket_moved" ? 1 : 2;
             // a[0]: list type 0 free 1 ordered 2 small; a[1]: policy 0 identity 1 log2; a[2] max node size; a[3] size
-            if (a[1] == 0) r = a[0] == 0 ? bucket<free_memory_list, identity_access_policy>(a[2], a[3])
-                             : a[0] == 1 ? bucket<ordered_free_memory_list, identity_access_policy>(a[2], a[3])
-                                         : bucket<small_free_memory_list, identity_access_policy>(a[2], a[3]);
-            else r = a[0] == 0 ? bucket<free_memory_list, log2_access_policy>(a[2], a[3])
-                     : a[0] == 1 ? bucket<ordered_free_memory_list, log2_access_policy>(a[2], a[3])
-                                 : bucket<small_free_memory_list, log2_access_policy>(a[2], a[3]);
+            if (a[1] == 0) r = a[0] == 0 ? bucket<free_memory_list, identity_access_policy>(a[2], a[3], mode)
+                             : a[0] == 1 ? bucket<ordered_free_memory_list, identity_access_policy>(a[2], a[3], mode)
+                                         : bucket<small_free_memory_list, identity_access_policy>(a[2], a[3], mode);
+            else r = a[0] == 0 ? bucket<free_memory_list, log2_access_policy>(a[2], a[3], mode)
+                     : a[0] == 1 ? bucket<ordered_free_memory_list, log2_access_policy>(a[2], a[3], mode)
+                                 : bucket<small_free_memory_list, log2_access_policy>(a[2], a[3], mode);
         }
         else { std::printf("? %s\n", fn.c_str()); continue; }
         std::printf("%s", fn.c_str());
